@@ -31,14 +31,20 @@ CEX = {
 def model_cfgs(ctx):
     if ctx.tier == "quick":
         return [("one-env", dict(ONE, TaskIds={"k1", "k2", "k3", "k4", "k5"}, BasicChoices=[{"a"}, {"a", "b"}],
-                                 HookChoices=[set(), {"h1"}, {"h1", "h2"}, {"h1", "d2"}, {"h1", "h3"}], PendChoices=[False, True],
+                                 HookChoices=[set(), {"h1"}, {"h1", "h2"}, {"h1", "h3"}], PendChoices=[False, True],
                                  Scripts=SCRIPTS, Ops={"START_ACTIVITY", "STOP_ACTIVITY"}, DestroyFlags=FLAGS, KillOutcomes={"ack", "silent"},
                                  FaultRoles={"h1"}, MaxCalls=3)),
+                # executor / agent reported lost (ids blanked, role still set), then destroy / cleanup
+                ("lost", dict(ONE, BasicChoices=[{"a"}, {"a", "b"}], HookChoices=[set(), {"h1"}, {"h2"}], Ops={"START_ACTIVITY"},
+                              DestroyFlags=FLAGS, FaultRoles={"a", "b", "h1", "h2"}, FaultKinds={"EXECUTOR_LOST", "AGENT_LOST"}, MaxCalls=3)),
                 ("create||destroy", dict(Envs={"e1"}, DetChoices=[{"TPC"}], HookChoices=[set(), {"h1"}], Scripts={"ok", "configfail"},
                                          Ops=set(), DestroyFlags=[set(), {"force"}, {"keep"}], MaxCalls=3, MaxInFlight=2))]
     return [("one-env", dict(ONE, TaskIds={"k1", "k2", "k3", "k4", "k5"}, BasicChoices=[{"a"}, {"a", "b"}], HookChoices=HOOKSETS,
                              PendChoices=[False, True], Scripts=SCRIPTS, Ops=OPS - {"CONFIGURE"} | {"RESET"}, DestroyFlags=FLAGS,
                              KillOutcomes={"ack", "silent"}, FaultRoles={"h1"}, MaxCalls=4)),
+            ("lost", dict(Envs={"e1", "e2"}, DetChoices=[{"TPC"}, {"ITS"}], BasicChoices=[{"a"}, {"a", "b"}], HookChoices=[set(), {"h1"}, {"h2"}],
+                          Ops={"START_ACTIVITY"}, DestroyFlags=[set(), {"force"}, {"keep"}], FaultRoles={"a", "b", "h1", "h2"},
+                          FaultKinds={"EXECUTOR_LOST", "AGENT_LOST"}, MaxCalls=3, MaxInFlight=1)),
             ("create||destroy", dict(Envs={"e1"}, DetChoices=[{"TPC"}], HookChoices=[set(), {"h1"}, {"h1", "h2"}],
                                      Scripts={"ok", "configfail", "launchfail"}, Ops={"START_ACTIVITY"},
                                      DestroyFlags=[set(), {"force"}, {"keep"}], MaxCalls=3, MaxInFlight=2))]
@@ -110,12 +116,20 @@ def run(ctx):
         sid[0] += 1
         scenarios.append(lc.recipe_double_claim(sid[0], prefix="d", then_destroy=True))
     # 3. scenarios walked by TLC
-    ndes, nfail, npar, nsil = (70, 40, 30, 3) if quick else (500, 250, 250, 10)
+    ndes, nfail, npar, nsil, nlost = (50, 30, 20, 3, 20) if quick else (450, 250, 250, 10, 200)
     big = {"k%d" % i for i in range(1, 21)}
     des = dict(Envs={"e1", "e2"}, TaskIds=big, BasicChoices=[{"a"}, {"a", "b"}], HookChoices=HOOKSETS, PendChoices=[False, True],
                DetChoices=[{"TPC"}, {"ITS"}], Ops=OPS, DestroyFlags=FLAGS, FaultRoles={"h1"}, MaxCalls=5, MaxInFlight=1)
+    # executor / agent reported lost (FAILURE event: ids blanked, role still set) for a basic task or a hook task of a live
+    # environment, then destroy (any flags) from the state the environment is in then (ERROR once its watcher has fired)
+    lost = dict(des, HookChoices=[set(), {"h1"}, {"h2"}, {"h1", "h2"}], PendChoices=[False], FaultRoles={"a", "b", "h1", "h2"},
+                FaultKinds={"EXECUTOR_LOST", "AGENT_LOST"}, Ops={"START_ACTIVITY", "RESET"}, MaxCalls=4)
     for h in lc.generate(ctx, des, ndes, pairs=False):
         add(h, "destroy")
+    for h in lc.generate(ctx, lost, nlost * 2, pairs=False):
+        if any(it["do"] == "fault" for it in h) and nlost > 0:
+            add(h, "lost")
+            nlost -= 1
     for h in lc.generate(ctx, dict(des, Scripts=SCRIPTS, MaxCalls=3, Ops={"START_ACTIVITY"}), nfail, pairs=False):
         add(h, "createfail")
     par = dict(des, HookChoices=[set(), {"h1"}, {"h1", "h2"}, {"d1", "h2"}], PendChoices=[False], Ops={"START_ACTIVITY", "STOP_ACTIVITY"},
